@@ -9,13 +9,20 @@
      - [init_ok c wm d0]           d0 holds no file named stem.*.ext other than possibly the live file
                                    (unrelated files may be present), names are unique, and a pre-existing
                                    live file opened in append mode is within the limit;
-     - [Forall (ok_op c) ops]      every write has cnt = wr (bytes written = log_statement.size(); FALSE for
-                                   RotatingJsonFileSink, see rot_json_refuted / D10) and every restart after
-                                   the constructor happens under the Index scheme in mode "a", or in mode "w"
-                                   with remove_old_files (Date / DateAndTime restarts: not proved, see report). *)
+     - [Forall (ok_op c) ops]      every restart after the constructor happens under the Index scheme in mode
+                                   "a", or in mode "w" with remove_old_files (Date / DateAndTime restarts: not
+                                   proved, see report); and, ONLY for the earlier variant of the code that
+                                   accounted log_statement.size() (c_cntacct c = true, finding D10), every
+                                   write has cnt = wr (bytes written = log_statement.size(); false for
+                                   RotatingJsonFileSink, see rot_json_refuted).  For the repaired code
+                                   (c_cntacct c = false: size check and _file_size use the bytes the base sink
+                                   writes) there is no premise on the writes: rot_ops_code, rot_limit_code.
+   The variant that stands for the source tree is TieC14.src_cntacct, read from the source on every run
+   (T-src: tools/srcfacts.py rot_facts, TieC14.v by vm_compute): rot_code_variant. *)
 From Coq Require Import List NArith Sorted.
 From Quill Require Import Rotate.RotFS Rotate.RotModel Rotate.RotChain Rotate.RotInv Rotate.RotRun Rotate.RotRestart
   Rotate.RotProps Rotate.RotSched Rotate.RotTheorems Rotate.RotWitness.
+From Quill Require TieC14.
 Import ListNotations.
 Open Scope N_scope.
 
@@ -146,14 +153,58 @@ Theorem rot_decoys_untouched : forall strf rtm c, (forall k t, strf k t <> []) -
 Proof. exact rot_decoys_untouched_thm. Qed.
 Print Assumptions rot_decoys_untouched.
 
-(* D10: without "bytes written = log_statement.size()" rot_limit fails (RotatingJsonFileSink: cnt = 0):
+(* T-src: the variant that stands for the source tree accounts the bytes written (c_cntacct = false), and
+   the regenerated skeletons of RotatingSink::write_log / before_stream_write / _size_rotation and
+   StreamSink::write_log are the ones the model was written against.  (On a tree without the repair of D10
+   TieC14 does not compile and this theorem and the two below are not discharged.) *)
+Theorem rot_code_variant :
+  TieC14.src_cntacct = false /\
+  QuillGen.SrcFacts.sk_rot_write_log = TieC14.exp_rot_write_log /\
+  QuillGen.SrcFacts.sk_rot_before_stream_write = TieC14.exp_rot_before_stream_write /\
+  QuillGen.SrcFacts.sk_rot_size_rotation = TieC14.exp_rot_size_rotation /\
+  QuillGen.SrcFacts.sk_rot_stream_write_log = TieC14.exp_rot_stream_write_log.
+Proof. exact (conj TieC14.src_cntacct_false TieC14.c14_skeletons_ok). Qed.
+Print Assumptions rot_code_variant.
+
+(* for the code variant the premise of the theorems above is a premise on the restarts only: every
+   write - whatever log_statement.size() is (cnt), RotatingJsonFileSink included - is covered *)
+Theorem rot_ops_code : forall c ops, c_cntacct c = TieC14.src_cntacct ->
+  Forall (ok_restart c) ops -> Forall (ok_op c) ops.
+Proof. exact TieC14.ok_ops_src. Qed.
+Print Assumptions rot_ops_code.
+
+(* rot_limit for the code variant, without "bytes written = log_statement.size()" *)
+Theorem rot_limit_code : forall strf rtm c, (forall k t, strf k t <> []) -> forall wm rm start d0 ops,
+  c_cntacct c = TieC14.src_cntacct ->
+  init_ok c wm d0 -> Forall (ok_restart c) ops -> c_limit c <> 0 ->
+  let sN := run0 strf rtm c wm rm start d0 ops in
+  (forall f, In f (tl (dq sN)) -> ok_size c (fs_content (fname f) (fs sN))) /\
+  (stopped c sN = false -> ok_size c (fs_content (live_path c) (fs sN))).
+Proof.
+  exact (fun strf rtm c H1 wm rm start d0 ops E H2 H3 =>
+    rot_limit_thm strf rtm c H1 wm rm start d0 ops H2 (TieC14.ok_ops_src c ops E H3)).
+Qed.
+Print Assumptions rot_limit_code.
+
+(* the seven JSON statements of rot_json_refuted below (200 bytes each, log_statement empty) under the
+   repaired code: the sixth write rotates, rot.1.log holds 1000 bytes, the live file 400 *)
+Theorem rot_json_code_example :
+  Forall (ok_op json_cfg_fixed) json_ops /\
+  map (fun e => (fst e, fsize (snd e))) (fs (run0 toy_strf toy_rtm_min json_cfg_fixed true true 0 [] json_ops)) =
+  [([[114; 111; 116]; [49]; [108; 111; 103]], 1000); ([[114; 111; 116]; [108; 111; 103]], 400)].
+Proof. exact rot_json_fixed_example. Qed.
+Print Assumptions rot_json_code_example.
+
+(* D10 (repaired; kept as a statement about the earlier variant json_cfg, c_cntacct = true): accounting
+   log_statement.size() instead of the bytes written, rot_limit fails (RotatingJsonFileSink: cnt = 0):
    limit 1024, seven statements of 200 bytes -> one live file of 1400 bytes, never rotated. *)
 Theorem rot_json_refuted :
+  c_cntacct json_cfg = true /\
   init_ok json_cfg true [] /\ c_limit json_cfg <> 0 /\ stopped json_cfg json_final = false /\
   length (fs_content (live_path json_cfg) (fs json_final)) = 7%nat /\
   fsize (fs_content (live_path json_cfg) (fs json_final)) = 1400 /\
   ~ Lim json_cfg json_final.
-Proof. exact rot_json_refuted_lem. Qed.
+Proof. exact (conj eq_refl rot_json_refuted_lem). Qed.
 Print Assumptions rot_json_refuted.
 
 (* scope note (i): under the Date scheme the age read off the names needs non-decreasing open instants *)
